@@ -2,6 +2,7 @@ CFG = {
     "level_text": "Proved (unbounded, all interleavings): threads with private state over a shared value that no step writes obtain exactly their single-threaded outputs and final states (interleaving_noninterference, schedule_irrelevant). The premise is tied to the code by the regenerated inventory of shared / interior-mutable state (must equal the reviewed classification), DictionaryAccess handing out only shared references, and a compile-time Send + Sync assertion. Tested (labelled so): 2..8 Rust threads over one Arc<JapaneseDictionary> with every plugin kind and a user dictionary, and Python threads over tokenizers of one Dictionary, against the sequential results; the observed completion order is replayed through the model in Coq.",
     "level_note": "partial: real data races inside unsafe blocks, memory-mapped storage, third-party crates and the allocator cannot be exhibited by the model; they are only exercised by the threaded runs.",
     "facts": ["MutAudit"],
+    "profiles": ["debug", "slow"],
     "pre_build": ["py_cli"],
     "trusted": ["std::thread / Arc / Barrier, CPython GIL release in py.allow_threads"],
     "assumptions": ["each tokenizer is a deterministic function of the dictionary and its own history (C10)"],
